@@ -330,7 +330,7 @@ func init() {
 		Level:   "exploration",
 		Workers: 1,
 		Rule: "every integer type declared in types.go (extracted with go/types) and every constant of it declared anywhere in the package: a generated program calls String() on all 256 values of 8-bit types, all 65536 values of 16-bit types, and for wider types on every constant and its neighbours, every value below 2^16, every power of two and its neighbours, and values sharing their low 16 bits with a constant (thorough tier: all 2^32 values of every 32-bit type); expected = constant name without the type prefix (any of the names sharing the value), otherwise Type(n). " +
-			"Regeneration: the repository's fitstringer is run (through a driver placed by build overlay) on the sorted type list of types.go and its output compared byte-for-byte with the checked-in types_string.go. distinct = values that are named constants",
+			"Regeneration: the repository's fitstringer is run (through a driver placed by build overlay) on the sorted type list of types.go and its output compared byte-for-byte with the checked-in types_string.go, also when the generator runs under GOMAXPROCS = 1, 2, 3, 5, 6, 7, 12. Through the command: fitgen run on bundled workbooks (quick: 2, thorough: 5) into an empty directory and into directories that already hold the same types.go with string tables of another SDK version / cut in half, only stale tables, or another version's complete output — the tables left must be those of the fresh run. distinct = values that are named constants",
 		Assumptions: []string{"Bool (types_man.go) is hand-written and outside the statement"},
 		Run:         runC20,
 	})
@@ -446,6 +446,19 @@ func runC20(w *vx.W) {
 		w.Violation("regeneration-failed", fmt.Sprintf("fitstringer.Generate fails on the checked-in types.go: %v %s", err, trunc(stderr.String(), 500)), nil)
 		return
 	}
+	// the generator's output must not depend on the number of processors it runs on
+	for _, g := range []string{"1", "2", "3", "5", "6", "7", "12"} {
+		rg2 := exec.Command(regenBin, strings.Join(names, ","), "types.go")
+		rg2.Dir = repoRoot
+		rg2.Env = append(goEnv(), "GOMAXPROCS="+g)
+		gen2, err2 := rg2.Output()
+		w.Eval(1)
+		w.Fam("regeneration-under-processor-counts", 1)
+		if err2 != nil || !bytes.Equal(gen2, gen) {
+			w.Violation("regeneration-depends-on-processor-count", fmt.Sprintf("fitstringer.Generate under GOMAXPROCS=%s: err=%v, %d bytes; with the default processor count %d bytes", g, err2, len(gen2), len(gen)), nil)
+			break
+		}
+	}
 	have, _ := os.ReadFile(filepath.Join(repoRoot, "types_string.go"))
 	w.Extra("regenerated_bytes", len(gen))
 	if !bytes.Equal(gen, have) {
@@ -455,5 +468,78 @@ func runC20(w *vx.W) {
 		}
 		line := 1 + bytes.Count(have[:min(i, len(have))], []byte("\n"))
 		w.Violation("string-tables-stale", fmt.Sprintf("types_string.go differs from what fitstringer generates from types.go (first difference at byte %d, line %d; checked-in %d bytes, regenerated %d bytes)", i, line, len(have), len(gen)), nil)
+	}
+	c20ThroughCommand(w, scratch)
+}
+
+// c20ThroughCommand: the tables the fitgen *command* leaves next to the types it generates. The output directory is an
+// environment answer: empty; holding the very types.go the run will write together with string tables that belong to
+// another SDK version, or cut in half (an interrupted earlier run); holding only stale tables. In every case the
+// finished run must leave the tables of the fresh run (differential oracle: no expected text is written by hand).
+func c20ThroughCommand(w *vx.W, scratch string) {
+	fitgen := filepath.Join(scratch, "fitgen")
+	b := exec.Command("go", "build", "-o", fitgen, "./cmd/fitgen")
+	b.Dir = repoRoot
+	b.Env = goEnv()
+	if out, err := b.CombinedOutput(); err != nil {
+		w.HarnessError("building fitgen failed: %v\n%s", err, trunc(string(out), 2000))
+	}
+	tdDir := filepath.Join(repoRoot, "cmd", "fitgen", "internal", "profile", "testdata")
+	n := 0
+	run := func(ver string, files map[string][]byte) (string, error) {
+		n++
+		out := filepath.Join(scratch, fmt.Sprintf("gen%d", n))
+		os.MkdirAll(out, 0o755)
+		for name, data := range files {
+			os.WriteFile(filepath.Join(out, name), data, 0o644)
+		}
+		cmd := exec.Command(fitgen, "-sdk", ver, filepath.Join(tdDir, ver+".xlsx"), out)
+		cmd.Dir = repoRoot
+		cmd.Env = goEnv()
+		if o, err := cmd.CombinedOutput(); err != nil {
+			return out, fmt.Errorf("%v: %s", err, trunc(string(o), 400))
+		}
+		return out, nil
+	}
+	read := func(dir, name string) []byte { b, _ := os.ReadFile(filepath.Join(dir, name)); return b }
+	vers := []string{"21.40", "20.14"}
+	if !w.Quick() {
+		vers = []string{"21.40", "20.14", "16.20", "20.27", "20.43"}
+	}
+	fresh := map[string]string{}
+	for _, v := range vers {
+		d, err := run(v, nil)
+		w.Eval(1)
+		if err != nil {
+			w.Violation("command-fails", fmt.Sprintf("fitgen -sdk %s into an empty directory: %v", v, err), nil)
+			return
+		}
+		fresh[v] = d
+	}
+	for i, v := range vers {
+		other := vers[(i+1)%len(vers)]
+		want := read(fresh[v], "types_string.go")
+		cases := []struct {
+			name  string
+			files map[string][]byte
+		}{
+			{"the same types.go and the string tables of SDK " + other, map[string][]byte{"types.go": read(fresh[v], "types.go"), "types_string.go": read(fresh[other], "types_string.go")}},
+			{"the same types.go, messages.go, profile.go and string tables cut in half", map[string][]byte{"types.go": read(fresh[v], "types.go"), "messages.go": read(fresh[v], "messages.go"), "profile.go": read(fresh[v], "profile.go"), "types_string.go": want[:len(want)/2]}},
+			{"only the string tables of SDK " + other, map[string][]byte{"types_string.go": read(fresh[other], "types_string.go")}},
+			{"the complete output of SDK " + other, map[string][]byte{"types.go": read(fresh[other], "types.go"), "messages.go": read(fresh[other], "messages.go"), "profile.go": read(fresh[other], "profile.go"), "types_string.go": read(fresh[other], "types_string.go")}},
+		}
+		for _, c := range cases {
+			d, err := run(v, c.files)
+			w.Eval(1)
+			w.Fam("tables-left-by-the-command", 1)
+			if err != nil {
+				w.Violation("command-fails", fmt.Sprintf("fitgen -sdk %s into a directory holding %s: %v", v, c.name, err), nil)
+			} else if got := read(d, "types_string.go"); !bytes.Equal(got, want) {
+				w.Violation("command-leaves-stale-tables", fmt.Sprintf("fitgen -sdk %s into a directory holding %s: types_string.go (%d bytes) differs from the tables of a run into an empty directory (%d bytes), i.e. it does not match the types.go next to it", v, c.name, len(got), len(want)), nil)
+			} else if !bytes.Equal(read(d, "types.go"), read(fresh[v], "types.go")) {
+				w.Violation("command-leaves-stale-tables", fmt.Sprintf("fitgen -sdk %s into a directory holding %s: types.go differs from a run into an empty directory", v, c.name), nil)
+			}
+			os.RemoveAll(d)
+		}
 	}
 }
